@@ -314,7 +314,13 @@ func processRequest(ctx context.Context, req BulkRequest, seq int64, bulkOpts *B
 			res.Error = wrapErrorf(StatusUnprocessableEntity, "invalid duration: %w", err)
 			return res
 		}
-		time.Sleep(dur)
+		select {
+		case <-time.After(dur):
+		case <-ctx.Done():
+			// do not keep the stream open once it has been cancelled
+			res.Error = wrapError(StatusBadRequest, ctx.Err())
+			return res
+		}
 		res.Payload, _ = marshal(map[string]interface{}{
 			"sleep": "done",
 		})
